@@ -97,6 +97,31 @@ fn main() {
         println!("{}", json!({"refdft_worst": w}));
         std::process::exit(if w < 1e-25 { 0 } else { 2 });
     }
+    if driver == "kernelops" {
+        // exact operation counts of the primitive kernels (for spec/KernelOps.tla)
+        use rustfft::num_complex::Complex;
+        use rustfft::{Fft, FftDirection, FftPlannerScalar};
+        let mut m = serde_json::Map::new();
+        let mut planner = FftPlannerScalar::<types::Counting>::new();
+        for n in [2usize, 3, 4, 5, 6, 7, 8, 9, 11, 12, 13, 16, 17, 19, 23, 24, 27, 29, 31, 32] {
+            let fft = planner.plan_fft(n, FftDirection::Forward);
+            let mut buf = vec![Complex { re: types::Counting(1.0), im: types::Counting(2.0) }; n];
+            let mut scratch = vec![Complex { re: types::Counting(0.0), im: types::Counting(0.0) }; fft.get_inplace_scratch_len()];
+            types::ops_reset();
+            fft.process_with_scratch(&mut buf, &mut scratch);
+            m.insert(format!("B{}", n), json!(types::ops_get()));
+        }
+        for n in [0usize, 1, 2, 3, 5, 6, 10] {
+            let fft = rustfft::algorithm::Dft::new(n, FftDirection::Forward);
+            let mut buf = vec![Complex { re: types::Counting(1.0), im: types::Counting(2.0) }; n];
+            let mut scratch = vec![Complex { re: types::Counting(0.0), im: types::Counting(0.0) }; n];
+            types::ops_reset();
+            fft.process_with_scratch(&mut buf, &mut scratch);
+            m.insert(format!("Dft{}", n), json!(types::ops_get()));
+        }
+        println!("{}", serde_json::Value::Object(m));
+        return;
+    }
     if out.is_empty() {
         eprintln!("--out required");
         std::process::exit(2);
